@@ -143,16 +143,18 @@ def check(run, prefix="O5"):
     else:
         table = ignore_table(prog, sib)
         want = {
-            "Standstill": ("const-false", set()),
-            "CertCreated": ("pruned-only", {"lt"}),
-            "ParentReady": ("pruned-or-retired", {"lt", "retired"}),
-            "SafeToNotar": ("pruned-or-retired", {"lt", "retired"}),
-            "SafeToSkip": ("pruned-or-retired", {"lt", "retired"}),
+            "Standstill": ("never ignored", lambda lt, rt: False),
+            "CertCreated": ("ignored exactly when slot < first_unpruned_slot()", lambda lt, rt: lt),
+            "ParentReady": ("ignored exactly when pruned or retired", lambda lt, rt: lt or rt),
+            "SafeToNotar": ("ignored exactly when pruned or retired", lambda lt, rt: lt or rt),
+            "SafeToSkip": ("ignored exactly when pruned or retired", lambda lt, rt: lt or rt),
         }
-        for v, (name, feats) in want.items():
+        for v, (name, fn) in want.items():
             got = table.get(v)
-            o.check(got == feats, "consensus::votor::Votor::should_ignore_pool_event|%s" % v,
-                    "should_ignore_pool_event(%s) is decided by %s" % (v, name), sib.span, {"got": sorted(got) if got is not None else None})
+            exp = {(lt, rt): bool(fn(lt, rt)) for lt in (False, True) for rt in (False, True)}
+            o.check(got == exp, "consensus::votor::Votor::should_ignore_pool_event|%s" % v,
+                    "should_ignore_pool_event(%s): %s (truth table over the two conditions)" % (v, name), sib.span,
+                    {"got": {"lt=%s,retired=%s" % k: x for k, x in got.items()} if got else None})
 
     # ------------------------------------------------------------------ O5.5 writers
     o = run.ob(P + ".5", "per-slot voting flags are written only by the functions entitled to",
@@ -281,40 +283,62 @@ def check(run, prefix="O5"):
 
 
 def ignore_table(prog, body):
-    """For should_ignore_pool_event: per PoolEvent variant, which features decide the result:
-    'lt' (slot < first_unpruned_slot comparison), 'retired' (is_retired call) ; empty set = constant false."""
-    out = {}
-    # find the variant switch
-    for (s, dterm, dty) in body.switches():
-        sa = G.switch_atoms(body, s, prog)
-        vs = {}
-        for v, atoms in sa.items():
-            for a in atoms:
-                if a[0] == "variant":
-                    vs[v] = a[1][1]
-        if not vs:
-            continue
-        es = body.edges()
-        for v, names in vs.items():
-            # blocks reachable from this arm's target (before join at return)
-            tgt = [e[1] for e in es if e[0] == s and e[2] == ("sw", v)]
-            if not tgt:
+    """For should_ignore_pool_event: per PoolEvent variant the boolean function result(lt, retired), as a dict
+    {(lt, retired): bool}, from the decision table of the body (CFG path enumeration; spelling-independent).
+    lt = `slot < first_unpruned_slot()`, retired = `is_retired(slot)`. None for a variant whose rows use any other condition."""
+    from engine import paths
+    rows = paths.decision_table(body, prog)
+
+    def classify(kind, args):
+        if kind == "lt" and K.mentions_call(args[1], "first_unpruned_slot") and K.mentions_call(args[0], "slot"):
+            return "lt"
+        if kind == "bool" and K.mentions_call(args[0], "is_retired"):
+            return "retired"
+        return None
+    variants = set()
+    prows = []
+    for atoms, ret, blocks in rows:
+        vs = None
+        conds = {}
+        bad = False
+        for a in atoms:
+            if a[0] == "variant":
+                vs = a[1][1] if vs is None else (vs & a[1][1])
                 continue
-            region = body.reachable(tgt[0])
-            feats = set()
-            const_only = True
-            for bb in region:
-                t = body.blocks[bb]["term"]
-                if t["k"] == "call":
-                    nm = mir.strip_generics(t.get("resolved") or t.get("callee"))
-                    if nm.endswith("Votor::is_retired"):
-                        feats.add("retired")
-                    if nm.endswith("PartialOrd::lt") or nm.endswith("::lt"):
-                        tt = body.call_term(bb, t)
-                        if K.mentions_call(tt, "first_unpruned_slot"):
-                            feats.add("lt")
-            for n in names:
-                out[n] = feats
-        break
-    # regions overlap at the join; features are per arm because calls happen before the join
+            c = classify(a[0], a[1])
+            if c is None:
+                bad = True
+            else:
+                conds[c] = a[2]
+        if vs is None:
+            continue
+        variants |= set(vs)
+        r = None
+        if ret is not None and ret[0] == "const" and ret[1] == "bool":
+            r = ("const", bool(ret[2]))
+        elif ret is not None:
+            nb = G.norm_bool(ret, True)
+            c = classify(nb[0], nb[1])
+            r = ("atom", c, nb[2]) if c else None
+        prows.append((vs, conds, r, bad))
+    out = {}
+    for v in variants:
+        fn = {}
+        ok = True
+        for lt in (False, True):
+            for rt in (False, True):
+                env = {"lt": lt, "retired": rt}
+                vals = set()
+                for vs, conds, r, bad in prows:
+                    if v in vs and all(env[k] == pol for k, pol in conds.items()):
+                        if bad or r is None:
+                            ok = False
+                        else:
+                            vals.add(r[1] if r[0] == "const" else (env[r[1]] == r[2]))
+                if len(vals) != 1:
+                    ok = False
+                else:
+                    fn[(lt, rt)] = next(iter(vals))
+        out[v] = fn if ok else None
     return out
+
